@@ -93,6 +93,7 @@ class Builder:
         self.inputs = list(input_names)  # flattened real inputs
         self.raw = {}  # id(expr) -> raw node key
         self.nodes = {}  # digest -> (op, argdigests, imm)
+        self.shape = {}  # digest -> digest of the shape (constant values ignored)
         self._printer = None
 
     def _const_bits(self, expr):
@@ -168,7 +169,9 @@ class Builder:
         elif kind in BIN:
             op = BIN[kind]
             a, b = (self.digest(o) for o in expr.operands)
-            if op in COMMUTATIVE and b < a:
+            # canonical operand order of commutative primitives: by shape (constant values and
+            # input indices ignored, so the order is the same for every format), then by full digest
+            if op in COMMUTATIVE and (self.shape[b], b) < (self.shape[a], a):
                 a, b = b, a
             spec = (op, (a, b), 0)
         elif kind in UN:
@@ -183,6 +186,8 @@ class Builder:
         if kind not in ("symbol", "real", "imag") and t not in (self.fmt, "boolean"):
             raise Untranslatable(f"node {kind} of type {t} in a {self.fmt} program")
         h = hashlib.sha1(repr(spec).encode()).hexdigest()
+        shape_spec = (spec[0], tuple(self.shape[a] for a in spec[1]), 0 if spec[0] == "const" else spec[2])
+        self.shape[h] = hashlib.sha1(repr(shape_spec).encode()).hexdigest()
         self.nodes[h] = spec
         self.raw[k] = h
         return h
